@@ -77,6 +77,12 @@ func (r *round1) Update(msg model.ConsensusMessage) *Error {
 	gid := groupsig.DeserializeID(bh.GroupId)
 	si := cvm.SignInfo
 
+	// the share must be over the block this round is signing
+	if si.GetDataHash() != bh.Hash {
+		r.logger.Errorf("share is not over this block, id: %s, signed hash: %s, hash: %s, height: %d", si.GetSignerID().GetHexString(), si.GetDataHash().String(), bh.Hash.String(), bh.Height)
+		return nil
+	}
+
 	// get pubKey
 	pk, ok := group_create.GroupCreateProcessor.GetMemberSignPubKey(gid, si.GetSignerID())
 	if !ok {
